@@ -60,6 +60,13 @@ def start_world(rng):
             r["marker"], r["match"] = s["name"], False
             if rng.random() < 0.5:
                 r["owner"] = None
+    if rng.random() < 0.1 and len(api["revs"]) >= 2:
+        # tied revision numbers (adopted or restored histories, two controller instances at fail-over): the order among them is by
+        # creation time, then name — which one is newest must not decide which one records the template
+        a, b = api["revs"][-2], api["revs"][-1]
+        a["revision"] = b["revision"]
+        if rng.random() < 0.5:
+            a["created"], b["created"] = 5, 0
     if s["policy"] == "OrderedReady":
         desired = set(first_free(s["replicas"], py_slots(ann.get("delete-slots")) or set()))
         api["pods"] = [p for p in api["pods"] if not (p["phase"] in ("Failed", "Succeeded") and monitors.parse_name(p["name"])[1] not in desired)]
@@ -234,6 +241,11 @@ def mon_history(sc, out):
             o = monitors.parse_name(p["name"])[1]
             if strategy == "RollingUpdate" and o >= sc["_partition_final"] and p["rev"] != upd:
                 bad.append("pod %s is at revision %s, its ordinal calls for the update revision %s" % (p["name"], p["rev"], upd))
+        # ... and the update revision is one that records the set's template (the revision its ordinal calls for is judged
+        # against the template, not against whatever status.updateRevision happens to name)
+        tm = {r["name"]: r.get("tmpl") for r in final["revs"]}
+        if upd in tm and s.get("tmpl") is not None and tm[upd] != s["tmpl"]:
+            bad.append("at quiescence status.updateRevision %s records template %s, the set's template is %s" % (upd, tm[upd], s["tmpl"]))
         live = [p for p in final["pods"]]
         if st["replicas"] != len(live) or st["ready"] != sum(1 for p in live if p["ready"]) \
                 or st["updated"] != sum(1 for p in live if p["rev"] == upd):
